@@ -24,6 +24,7 @@ type replacement struct {
 	model   *ssa.Function
 	desc    string
 	noop    bool
+	group   string // "" = always active; otherwise only for harnesses with cfg use=<group>[,<group>]
 }
 
 type HarnessDecl struct {
@@ -69,7 +70,7 @@ func commonApplies(src, relPkg string) bool {
 
 func norm(s string) string { return strings.ReplaceAll(s, " ", "") }
 
-var directiveRe = regexp.MustCompile(`^//verif:(\w+)\s*(.*)$`)
+var directiveRe = regexp.MustCompile(`^//verif:(\w+)(?:\[(\w+)\])?\s*(.*)$`)
 
 // LoadPackage loads pkgPath (import path relative to the module, e.g. "internal/glob").
 func LoadPackage(repo, harnessRoot, relPkg string) (*Loaded, error) {
@@ -174,7 +175,7 @@ func LoadPackage(repo, harnessRoot, relPkg string) (*Loaded, error) {
 	for _, f := range ofiles {
 		isOverlay[f] = true
 	}
-	type pend struct{ kind, arg string }
+	type pend struct{ kind, group, arg string }
 	var pending []pend
 	for _, f := range pkgs[0].Syntax {
 		fname := ld.fset.Position(f.Pos()).Filename
@@ -185,7 +186,7 @@ func LoadPackage(repo, harnessRoot, relPkg string) (*Loaded, error) {
 		for _, cg := range f.Comments {
 			for _, c := range cg.List {
 				if m := directiveRe.FindStringSubmatch(c.Text); m != nil {
-					pending = append(pending, pend{m[1], strings.TrimSpace(m[2])})
+					pending = append(pending, pend{m[1], m[2], strings.TrimSpace(m[3])})
 				}
 			}
 		}
@@ -199,7 +200,7 @@ func LoadPackage(repo, harnessRoot, relPkg string) (*Loaded, error) {
 				for _, c := range fd.Doc.List {
 					h.Doc = append(h.Doc, c.Text)
 					if m := directiveRe.FindStringSubmatch(c.Text); m != nil && m[1] == "cfg" {
-						for _, kv := range strings.Fields(m[2]) {
+						for _, kv := range strings.Fields(m[3]) {
 							if i := strings.IndexByte(kv, '='); i > 0 {
 								h.Cfg[kv[:i]] = kv[i+1:]
 							}
@@ -223,10 +224,10 @@ func LoadPackage(repo, harnessRoot, relPkg string) (*Loaded, error) {
 			if mf == nil {
 				return nil, fmt.Errorf("//verif:replace: model function %s not found", mname)
 			}
-			r := &replacement{pattern: norm(parts[0]), model: mf, desc: "model " + mname + " for " + strings.TrimSpace(parts[0])}
+			r := &replacement{pattern: norm(parts[0]), model: mf, desc: "model " + mname + " for " + strings.TrimSpace(parts[0]), group: p.group}
 			ld.addRepl(r)
 		case "noop":
-			r := &replacement{pattern: norm(p.arg), noop: true, desc: "no-op stub for " + p.arg}
+			r := &replacement{pattern: norm(p.arg), noop: true, desc: "no-op stub for " + p.arg, group: p.group}
 			ld.addRepl(r)
 		case "skipinit":
 			ld.skipInit[p.arg] = true
@@ -300,9 +301,6 @@ func (ld *Loaded) intrinsic(fn *ssa.Function) intrinsicFn {
 
 func (ld *Loaded) intrinsicSlow(fn *ssa.Function) intrinsicFn {
 	name := fn.String()
-	if r := ld.replacement(fn); r != nil && r.noop {
-		return inNoop
-	}
 	if fn.Pkg == ld.pkg && strings.HasPrefix(fn.Name(), "v") {
 		if h, ok := harnessIntrinsics[fn.Name()]; ok {
 			return h
